@@ -7,6 +7,7 @@ import VlsModel.Gen.FnKvvPass
 import VlsModel.Gen.FnNodePrune
 import VlsModel.Gen.FnNodeForget
 import VlsModel.Gen.FnTrackerEntry
+import VlsModel.Gen.FnTrackerEntryRestore
 import VlsModel.Model.Backup
 import VlsModel.Lemmas.FnGen
 /-
@@ -716,18 +717,17 @@ theorem C11_fn_forget_channel {ChannelId PublicKey ChainTracker Persist : Type} 
     (fg : Channel → VlsModel.Rs.M Unit) (st : Node ChannelId PublicKey ChainTracker Persist → NodeState)
     (oid : ChannelId → Nat) (updn : Persist → PublicKey → NodeState → Option Unit)
     (del : Persist → PublicKey → ChannelId → Option Unit)
-    (trk : Node ChannelId PublicKey ChainTracker Persist → ChainTracker)
     (updt : Persist → PublicKey → ChainTracker → Option Unit)
     (self : Node ChannelId PublicKey ChainTracker Persist) (id : ChannelId)
-    (h : Node.forget_channel chs fg st oid updn del trk updt self id = .ok ()) :
+    (h : Node.forget_channel chs fg st oid updn del updt self id = .ok ()) :
     ∀ slot, VlsModel.Rs.omapGet (chs self) id = some slot →
       (oid id > (st self).dbid_high_water_mark →
          updn self.persister self.node_id { st self with dbid_high_water_mark := oid id } = some ()) ∧
       (∀ s, slot = .Stub s → del self.persister self.node_id id = some ()) ∧
-      (∀ ch, slot = .Ready ch → fg ch = .ok () ∧ updt self.persister self.node_id (trk self) = some ()) := by
+      (∀ ch, slot = .Ready ch → fg ch = .ok () ∧ updt self.persister self.node_id self.tracker = some ()) := by
   intro slot hg
   unfold Node.forget_channel at h
-  simp only [hg, Node.get_id, bind, Except.bind, pure, Except.pure] at h
+  simp only [hg, Node.get_id, Node.get_tracker, bind, Except.bind, pure, Except.pure] at h
   cases slot with
   | Stub s =>
     by_cases hc : oid id > (st self).dbid_high_water_mark
@@ -742,9 +742,9 @@ theorem C11_fn_forget_channel {ChannelId PublicKey ChainTracker Persist : Type} 
     | ok u =>
       by_cases hc : oid id > (st self).dbid_high_water_mark
       · cases hu : updn self.persister self.node_id { st self with dbid_high_water_mark := oid id } <;>
-        cases ht : updt self.persister self.node_id (trk self) <;>
+        cases ht : updt self.persister self.node_id self.tracker <;>
         (try simp_all [VlsModel.Rs.unwrap, VlsModel.Rs.panic, pure, Except.pure]) <;> (try (intro hh; omega))
-      · cases ht : updt self.persister self.node_id (trk self) <;>
+      · cases ht : updt self.persister self.node_id self.tracker <;>
         (try simp_all [VlsModel.Rs.unwrap, VlsModel.Rs.panic, pure, Except.pure]) <;> (try (intro hh; omega))
 
 /-- non-vacuity: a stub under id 5 with the mark at 3 (the mark is raised and written, the stub deleted), a ready channel
@@ -752,12 +752,17 @@ theorem C11_fn_forget_channel {ChannelId PublicKey ChainTracker Persist : Type} 
 example :
     let node : Node Nat Nat Nat Nat := { channels := [(5, .Stub ⟨⟩), (2, .Ready ⟨⟩)], persister := 0, tracker := 4, state := ⟨3⟩, node_id := 9 }
     Node.forget_channel (fun n => n.channels) (fun _ => .ok ()) (fun n => n.state) id (fun _ _ _ => some ())
-        (fun _ _ _ => some ()) (fun n => n.tracker) (fun _ _ _ => some ()) node 5 = .ok () ∧
+        (fun _ _ _ => some ()) (fun _ _ _ => some ()) node 5 = .ok () ∧
     Node.forget_channel (fun n => n.channels) (fun _ => .ok ()) (fun n => n.state) id (fun _ _ _ => some ())
-        (fun _ _ _ => some ()) (fun n => n.tracker) (fun _ _ _ => some ()) node 2 = .ok () ∧
+        (fun _ _ _ => some ()) (fun _ _ _ => some ()) node 2 = .ok () ∧
     Node.forget_channel (fun n => n.channels) (fun _ => .ok ()) (fun n => n.state) id (fun _ _ _ => none)
-        (fun _ _ _ => some ()) (fun n => n.tracker) (fun _ _ _ => some ()) node 5 = .error .panic := by
+        (fun _ _ _ => some ()) (fun _ _ _ => some ()) node 5 = .error .panic := by
   intro node; exact ⟨rfl, rfl, rfl⟩
+
+
+/-- **C11_fn_node_get_tracker**: the tracker `forget_channel` persists is the node's own tracker (`get_tracker()` is the field). -/
+theorem C11_fn_node_get_tracker {ChannelId PublicKey ChainTracker Persist : Type}
+    (self : Node ChannelId PublicKey ChainTracker Persist) : self.get_tracker = self.tracker := rfl
 
 end Forget
 /-! ### `From<&ChainTracker<ChainMonitor>> for ChainTrackerEntry` translated (`Gen.FnTrackerEntry`, `fn_targets/TrackerEntry.b5.json`) -/
@@ -789,4 +794,46 @@ example :
   intro t e; exact ⟨rfl, rfl, rfl, rfl⟩
 
 end TrackerEntry
+/-! ### `ChainTrackerEntry::into_tracker` translated (`Gen.FnTrackerEntryRestore`, `fn_targets/TrackerEntryRestore.b5.json`) -/
+section TrackerEntryRestore
+open VlsModel.Gen.FnTrackerEntryRestore
+
+/-- **C11_fn_tracker_entry_into**: what a restart makes of a stored tracker entry: the tip and every header decoded (a failure
+    of either aborts the restart), `ChainTracker::restore` (tied: `C11_fn_tracker_restore`) called with exactly these, the stored
+    height and network, no listeners yet and no oracle keys, and every stored listener handed back in order (they are
+    re-attached by `restore_listener`, `C11_fn_tracker_restore_listener`). -/
+theorem C11_fn_tracker_entry_into {OutPoint ChainMonitorState ListenSlot Network PublicKey ValidatorFactory ChainTracker
+    ChainTrackerListenerEntry Headers ChainMonitor : Type}
+    (deTip deHdr : List Nat → VlsModel.Rs.M Headers) (mk : OutPoint → (ChainMonitorState × ListenSlot) → ChainTrackerListenerEntry)
+    (restore : List Headers → Headers → Nat → Network → List (OutPoint × (ChainMonitor × ListenSlot)) → PublicKey →
+      ValidatorFactory → List PublicKey → ChainTracker)
+    (e : ChainTrackerEntry OutPoint ChainMonitorState ListenSlot Network) (nid : PublicKey) (vf : ValidatorFactory)
+    (tip : Headers) (hs : List Headers) (htip : deTip e.tip = .ok tip) (hhs : List.mapM deHdr e.headers = .ok hs) :
+    ChainTrackerEntry.into_tracker deTip deHdr mk restore e nid vf =
+      .ok (restore hs tip e.height e.network [] nid vf [], e.listeners.map (fun x => mk x.1 x.2)) := by
+  unfold ChainTrackerEntry.into_tracker
+  have hm : List.mapM (fun h => do let t_4 ← deHdr h; pure t_4) e.headers = List.mapM deHdr e.headers := by
+    congr 1
+  simp only [htip, hm, hhs, bind, Except.bind, pure, Except.pure]
+
+/-- … and a tip or a header that does not decode aborts the restart (nothing is restored from a damaged entry). -/
+theorem C11_fn_tracker_entry_into_fail {OutPoint ChainMonitorState ListenSlot Network PublicKey ValidatorFactory ChainTracker
+    ChainTrackerListenerEntry Headers ChainMonitor : Type}
+    (deTip deHdr : List Nat → VlsModel.Rs.M Headers) (mk : OutPoint → (ChainMonitorState × ListenSlot) → ChainTrackerListenerEntry)
+    (restore : List Headers → Headers → Nat → Network → List (OutPoint × (ChainMonitor × ListenSlot)) → PublicKey →
+      ValidatorFactory → List PublicKey → ChainTracker)
+    (e : ChainTrackerEntry OutPoint ChainMonitorState ListenSlot Network) (nid : PublicKey) (vf : ValidatorFactory)
+    (f : VlsModel.Rs.Fail) (htip : deTip e.tip = .error f) :
+    ChainTrackerEntry.into_tracker deTip deHdr mk restore e nid vf = .error f := by
+  unfold ChainTrackerEntry.into_tracker
+  simp only [htip, bind, Except.bind]
+
+/-- non-vacuity -/
+example :
+    ChainTrackerEntry.into_tracker (Headers := Nat) (ChainMonitor := Nat) (fun l => .ok l.length) (fun l => .ok l.length)
+      (fun (o : Nat) (x : Nat × Nat) => (o, x)) (fun hs tip h n _ _ _ _ => (hs, tip, h, n))
+      ({ headers := [[1], [1, 2]], tip := [1, 2, 3], height := 9, network := 1, listeners := [(5, (6, 7))] } : ChainTrackerEntry Nat Nat Nat Nat)
+      (0 : Nat) (0 : Nat) = .ok (([1, 2], 3, 9, 1), [(5, (6, 7))]) := rfl
+
+end TrackerEntryRestore
 end VlsModel.Props.C11Fn
